@@ -30,6 +30,16 @@ def main() -> int:
     prop = args.prop.upper()
     mod = importlib.import_module(f'checks.{prop.lower()}')
     run = mod.run(args.tier)
+    if args.tier == 'thorough' and os.environ.get('VERIF_NO_SELFTEST') != '1' and not os.environ.get('VERIF_REPO'):
+        # checker validation, both ways (DESIGN 2.4): mutants must be reported, twins must stay silent
+        sys.path.insert(0, os.path.join(os.path.dirname(os.path.dirname(os.path.abspath(__file__))), 'selftest'))
+        import run as selftest  # type: ignore[import-not-found]
+        res = selftest.run_corpus([prop])
+        run.extra['checker_validation'] = {k: v for k, v in res.items() if k != 'lines'}
+        for ln in res['lines']:
+            print(ln)
+        if res['bad']:
+            run.error(f"checker self-test: {res['bad']} corpus entries did not behave as frozen (see SELFTEST lines)")
     return run.finish()
 
 
